@@ -174,7 +174,7 @@ Lemma st_rem_rec_fsub s id now : fsub (st_facts (fst (st_rem_rec s id now))) (st
 Proof. exact (st_rem_fsub s id now). Qed.
 
 Lemma expire_fsub s id fact now :
-  fsub (st_facts (fst (expire st_rem_rec s id fact now))) (st_facts s).
+  fsub (st_facts (fst (fst (expire st_rem_rec s id fact now)))) (st_facts s).
 Proof.
   unfold expire. destruct (fact_expired fact now); [|apply fsub_refl].
   pose proof (st_rem_rec_fsub s id now) as H.
@@ -183,7 +183,7 @@ Proof.
 Qed.
 
 Lemma expire_noexp rr s id fact now :
-  fact_expired fact now = false -> expire rr s id fact now = (s, false).
+  fact_expired fact now = false -> expire rr s id fact now = (s, false, None).
 Proof. intros H. unfold expire. rewrite H. reflexivity. Qed.
 
 Lemma search_ids_fsub pattern now ids : forall s acc,
@@ -192,9 +192,10 @@ Proof.
   induction ids as [|id r IH]; intros s acc; cbn [search_ids]; [apply fsub_refl|].
   destruct (alookup id (st_facts s)) as [fact|]; [|apply IH].
   pose proof (expire_fsub s id fact now) as He.
-  destruct (expire st_rem_rec s id fact now) as [s1 ex]. cbn [fst] in He.
+  destruct (expire st_rem_rec s id fact now) as [[s1 ex] err]. cbn [fst] in He.
   assert (Hw : forall acc', fsub (st_facts (fst (search_ids st_rem_rec s1 r pattern now acc'))) (st_facts s)).
   { intros acc'. eapply fsub_trans; [apply IH|exact He]. }
+  destruct (expire_stops (st_kind s) err); [exact He|].
   destruct ex; [apply Hw|].
   destruct (core_match pattern fact []) as [[|b bss]|e|w|]; cbn [fst]; try apply Hw; exact He.
 Qed.
@@ -205,6 +206,7 @@ Proof.
   induction ids as [|id r IH]; intros s acc Hn; cbn [search_ids]; [reflexivity|].
   destruct (alookup id (st_facts s)) as [fact|] eqn:El; [|apply IH; exact Hn].
   rewrite (expire_noexp rr s id fact now (Hn id fact El)).
+  cbv beta iota delta [expire_stops].
   destruct (core_match pattern fact []) as [[|b bss]|e|w|]; cbn [fst]; try (apply IH; exact Hn); reflexivity.
 Qed.
 
@@ -230,7 +232,7 @@ Proof.
   induction ids as [|id r IH]; intros s acc; cbn [find_ids_idx]; [apply fsub_refl|].
   destruct (alookup id (st_facts s)) as [fact|]; [|apply fsub_refl].
   pose proof (expire_fsub s id fact now) as He.
-  destruct (expire st_rem_rec s id fact now) as [s1 ex]. cbn [fst] in He.
+  destruct (expire st_rem_rec s id fact now) as [[s1 ex] err]. cbn [fst] in He.
   assert (Hw : forall acc', fsub (st_facts (fst (find_ids_idx s1 r now acc'))) (st_facts s)).
   { intros acc'. eapply fsub_trans; [apply IH|exact He]. }
   destruct ex; [apply Hw|].
@@ -253,9 +255,10 @@ Proof.
   destruct (alookup id (st_facts s)) as [fact|]; [|apply IH].
   destruct (jget "rule" fact) as [rule|]; [|apply IH].
   pose proof (expire_fsub s id fact now) as He.
-  destruct (expire st_rem_rec s id fact now) as [s1 ex]. cbn [fst] in He.
+  destruct (expire st_rem_rec s id fact now) as [[s1 ex] err]. cbn [fst] in He.
   assert (Hw : forall acc', fsub (st_facts (fst (find_ids_lin s1 r event now acc'))) (st_facts s)).
   { intros acc'. eapply fsub_trans; [apply IH|exact He]. }
+  destruct err; [exact He|].
   destruct ex; [apply Hw|].
   destruct rule as [| | | | |rm]; try apply Hw.
   destruct (alookup "when" rm) as [[| | | | |w]|]; try apply Hw.
